@@ -1098,7 +1098,10 @@ where
           }) {
           Ok(()) => {
             *self = AsyncWaitForAcknowledgments::Waiting { ack_wait_receiver };
-            Poll::Pending
+            // Poll the receiver right away. This registers our waker, so that we
+            // get woken up when the Writer signals completion. Returning Pending
+            // without having registered a waker would leave us waiting forever.
+            self.poll(cx)
           }
 
           Err(TrySendError::Full(WriterCommand::WaitForAcknowledgments {
@@ -1109,6 +1112,8 @@ where
               ack_wait_receiver,
               ack_wait_sender,
             };
+            // The command queue is full. Writer wakes us when it has made room.
+            *writer.cc_upload_waker.lock().unwrap() = Some(cx.waker().clone());
             Poll::Pending
           }
           Err(TrySendError::Full(_other_writer_command)) =>
